@@ -21,7 +21,8 @@ ASSUMPTIONS = ["container nesting of generated values <= max_recursion_depth (de
 TECHNIQUE = "Coq proof by nested induction on JSON values that the evaluator model equals the RFC nodelist semantics for every filter-free query; differential runs of find() against the extracted model"
 LEVEL_TEXT = ("Theorem C01_eval: for every filter-free query and every JSON value whose nesting is within the limit, m_find = Ok (sem q v) "
               "(same nodes, same order, duplicates kept). C01_find_text: the same for every TEXT that compiles to a filter-free query, in whatever lexical spelling - find(text, value) is the RFC nodelist of "
-              "the query the typed token grammar derives from the lexer's tokens for that text, and the text is derivable from the RFC 9535 ABNF (C04_sound). "
+              "the query the typed token grammar derives from the lexer's tokens for that text, and the text is derivable from the RFC 9535 ABNF (C04_sound). C01_every_spelling: conversely every spelling of every "
+              "filter-free query (any token sequence the grammar derives, any text spelling it: blanks, shorthand/brackets, both quote styles, escapes) compiles to that query and find returns its RFC nodelist. "
               "The model is tied to the code by differential testing on generated (query, value) pairs.")
 LEVEL_NOTE = "Trusted: Coq kernel; Spec/Sem.v as a reading of the RFC; correspondence harness; extraction and driver."
 
